@@ -716,8 +716,39 @@ def write_loops_are_duplicate_free(repo, rep, rid='C11.R3'):
     IWPF = 'pywbem_mock/_instancewriteprovider.py'
     cls = repo.cls(IWPF, 'InstanceWriteProvider')
 
+    def folded(e, f):
+        """the expression is a case-folded name: x.lower() / .casefold(),
+        or a local whose every definition is one"""
+        if isinstance(e, ast.Call) and not e.args and \
+                isinstance(e.func, ast.Attribute) and \
+                e.func.attr in ('lower', 'casefold'):
+            return True
+        if isinstance(e, ast.Name):
+            defs = [a.value for a in walk_no_nested(f.node)
+                    if isinstance(a, ast.Assign) and any(
+                        isinstance(t, ast.Name) and t.id == e.id
+                        for t in a.targets)]
+            return bool(defs) and all(folded(d, f) for d in defs
+                                      if not isinstance(d, ast.Name) or
+                                      d.id != e.id)
+        return False
+
+    def is_ns_name(e, f):
+        """the expression is a namespace name as somebody spelled it"""
+        if isinstance(e, ast.Attribute) and e.attr == 'namespace':
+            return True
+        if isinstance(e, ast.Name):
+            return any(isinstance(a, ast.Assign) and any(
+                isinstance(t, ast.Name) and t.id == e.id
+                for t in a.targets) and is_ns_name(a.value, f)
+                for a in walk_no_nested(f.node))
+        return False
+
     def set_built(f):
-        """every return of f is a set variable or list()/sorted() of one"""
+        """every return of f is a set variable or list()/sorted() of one (or
+        the values of a dict used as a keyed set), and what is collected is
+        distinct *as names*: namespace names are case-insensitive, so a set
+        of namespace names as spelled can hold the same namespace twice"""
         sets = set()
         for n in walk_no_nested(f.node):
             if isinstance(n, ast.Assign) and \
@@ -726,6 +757,31 @@ def write_loops_are_duplicate_free(repo, rep, rid='C11.R3'):
                          dotted(n.value.func) in ('set', 'frozenset')) or
                         isinstance(n.value, (ast.Set, ast.SetComp))):
                 sets.add(n.targets[0].id)
+            elif isinstance(n, ast.Assign) and \
+                    isinstance(n.targets[0], ast.Name) and (
+                        (isinstance(n.value, ast.Dict) and
+                         not n.value.keys) or
+                        (isinstance(n.value, ast.Call) and
+                         dotted(n.value.func) in ('dict', 'OrderedDict',
+                                                  'NocaseDict') and
+                         not n.value.args)):
+                sets.add(n.targets[0].id)       # dict used as keyed set
+        for n in walk_no_nested(f.node):
+            if isinstance(n, ast.Call) and \
+                    isinstance(n.func, ast.Attribute) and \
+                    isinstance(n.func.value, ast.Name) and \
+                    n.func.value.id in sets and n.args:
+                if n.func.attr in ('add', 'setdefault'):
+                    k = n.args[0]
+                    if is_ns_name(k, f) and not folded(k, f):
+                        return False
+            if isinstance(n, ast.Assign) and \
+                    isinstance(n.targets[0], ast.Subscript) and \
+                    isinstance(n.targets[0].value, ast.Name) and \
+                    n.targets[0].value.id in sets:
+                k = n.targets[0].slice
+                if is_ns_name(k, f) and not folded(k, f):
+                    return False
         rets = [r for r in walk_no_nested(f.node)
                 if isinstance(r, ast.Return) and r.value is not None]
         if not rets:
@@ -735,6 +791,12 @@ def write_loops_are_duplicate_free(repo, rep, rid='C11.R3'):
             if isinstance(v, ast.Call) and dotted(v.func) in (
                     'list', 'sorted', 'tuple') and v.args:
                 v = v.args[0]
+            if isinstance(v, ast.Call) and not v.args and \
+                    isinstance(v.func, ast.Attribute) and \
+                    v.func.attr in ('values', 'keys') and \
+                    isinstance(v.func.value, ast.Name) and \
+                    v.func.value.id in sets:
+                continue
             if isinstance(v, ast.Name) and v.id in sets:
                 continue
             if isinstance(v, (ast.Set, ast.SetComp)):
